@@ -207,7 +207,18 @@ class EngineC13:
         sparse = stochastic and g.random() < 0.5
         if need == "positive" and sparse:
             sparse = sparse  # valid_nonneg accepts strictly positive stored values
-        if like is not None:
+        moved = like is not None and stochastic and like["sparse"] and g.random() < 0.4
+        if moved:
+            # the same values at other positions: same shape, same number of nonzeros, another pattern
+            loss = like["loss"]
+            need, param = LOSSES[loss]
+            sparse = True
+            x0 = np.asarray(dec(like["x"]), dtype=float)
+            flat = x0.reshape(-1).copy()
+            g.shuffle(flat_list := flat.tolist())
+            x = np.array(flat_list, dtype=float).reshape(x0.shape)
+            rank = like["rank"]
+        elif like is not None:
             x = np.asarray(dec(like["x"]), dtype=float)
             # same shape, new values appropriate for this loss
             shape = list(x.shape)
@@ -262,6 +273,9 @@ class EngineC13:
                 step["sampler"] = {"f_kind": "UNIFORM", "g_kind": "UNIFORM", "f_n": g.randint(2, x.size + 2), "g_n": g.randint(1, 6)}
             if g.random() < 0.25:
                 step["fault"] = {"where": g.choice(["gradient_sample", "function_handle", "gradient_handle"]), "at": g.randint(1, 6)}
+            elif g.random() < 0.25 or (moved and g.random() < 0.6) or (like is not None and like.get("sampler", {}).get("default")):
+                # the caller leaves the sampler to the solver (its documented default for this kind of data)
+                step["sampler"]["default"] = True
         else:
             if g.random() < 0.3:
                 step["mask"] = [int(g.random() < 0.8) for _ in range(x.size)]
@@ -693,7 +707,9 @@ class EngineC13:
         stochastic = "sampler" in step
         with World(clock=clock, np_seed=step["np_seed"]) as wd:
             try:
-                if stochastic:
+                if stochastic and step["sampler"].get("default"):
+                    M, M0, info = ttb.gcp_opt(data, step["rank"], objective, optimizer, init=init, printitn=optimizer._printitn)
+                elif stochastic:
                     sampler = self._build_sampler(step, data, fault, counters)
                     M, M0, info = ttb.gcp_opt(data, step["rank"], objective, optimizer, init=init, sampler=sampler, printitn=optimizer._printitn)
                 else:
@@ -778,6 +794,16 @@ class EngineC13:
             res.bump("probe:known_stratified_zero_shortfall")
             res.events.append([i, "known_shortfall"])
             return "end"
+        default_sampler = bool(step.get("sampler", {}).get("default"))
+        if default_sampler:
+            res.bump("probe:solver_default_sampler")
+            e = out.get("error")
+            if isinstance(e, ValueError) and "stratified_zero_shortfall" in self._tolerate and ("could not be broadcast together with shapes" in str(e) or "arrays must have the same length" in str(e)):
+                # the recorded known finding (fewer subscripts than values/weights in a stratified sample) as it shows
+                # without the proxy: the solver trips over the mismatching triple. Nothing else is excused.
+                res.bump("probe:known_stratified_zero_shortfall")
+                res.events.append([i, "known_shortfall"])
+                return "end"
         if "error" in out:
             e = out["error"]
             if isinstance(e, ValueError) and "Infinite gradient" in str(e):
@@ -801,6 +827,11 @@ class EngineC13:
             mn = min(float(np.nanmin(f)) for f in M.factor_matrices)
             return V("factors_respect_lower_bound", f"smallest factor entry {mn} below the loss's lower bound {lb}")
         trace = np.asarray(info["f_est_trace"], dtype=float).reshape(-1)
+        if default_sampler:
+            # no proxy, hence no independent count of epochs and no copy of the function sample: the per-solve clauses
+            # on the trace are left to the steps with a proxy; bounds and the fresh-optimizer comparison remain
+            epochs = trace.shape[0] - 1
+            return self._compare_with_fresh(w, step, i, res, out, M, info, trace, epochs, cls, spec, V)
         if c["g_calls"] % epoch_iters != 0:
             return V("trace_has_start_plus_one_value_per_epoch", f"{c['g_calls']} gradient samples with epoch_iters={epoch_iters}")
         epochs = c["g_calls"] // epoch_iters
@@ -831,6 +862,9 @@ class EngineC13:
                 res.bump("probe:epoch_failed_and_rolled_back")
         if epochs < spec["max_iters"]:
             res.bump("probe:stopped_early")
+        return self._compare_with_fresh(w, step, i, res, out, M, info, trace, epochs, cls, spec, V)
+
+    def _compare_with_fresh(self, w, step, i, res, out, M, info, trace, epochs, cls, spec, V):
         # differential: fresh optimizer, same stream, other clock
         fresh = self._make_optimizer(spec)
         ref = self._solve_once(fresh, step, step["tick"] * 7.0 + 0.125, False)
